@@ -12,7 +12,7 @@ def jobs(tier):
     out = []
     langs = ['java', 'kotlin'] if tier == 'quick' else U.LANGS
     units = ['gen_variable', 'gen_assignment', 'gen_conditional', 'gen_new', 'gen_variable_decl', 'generate_expr', 'gen_field_access',
-             'gen_func_call']
+             'gen_func_call', 'select_superclass']
     for lang in langs:
         for unit in units:
             nv = 1 if tier == 'quick' else 2
@@ -20,7 +20,7 @@ def jobs(tier):
                 dict(nvars=0 if tier == 'quick' else 1, with_nested=True,
                      **(dict(sym_draws=3 if tier == 'quick' else 5) if unit == 'gen_func_call' else {}))
                 if unit in ('gen_func_call', 'gen_field_access')
-                else dict(nvars=nv))
+                else (dict(nvars=0, with_nested=False) if unit == 'select_superclass' else dict(nvars=nv)))
             out.append(Job('%s-%s' % (unit, lang), U.harness, dict(lang=lang, unit=unit, aspect=ASPECT, **extra),
                            split_depth=6, functions=U.FUNCS[unit], stubs=U.STUBS, require_events=['unit:%s' % unit],
                            budget_s=2400, crosscheck_every=500,
